@@ -1,7 +1,8 @@
 /-
   C09 — local-Clifford equivalence of graph states is decided correctly, constructively.
 
-  Property theorems only (helper lemmas live in Proofs/GraphOps.lean, Proofs/LC.lean and Proofs/LCSeq{Step,Loop,Term}.lean).
+  Property theorems only (helper lemmas live in Proofs/GraphOps.lean, Proofs/LC.lean, Proofs/LCSeq{Step,Loop,Term}.lean and
+  Proofs/LC{Comp,Block,Repair}.lean).
 
   What is proved here for every size n and every input (Tier A of DESIGN §4):
     1. local complementation toggles exactly the pairs of distinct neighbours and is an involution; both implementations
@@ -24,9 +25,23 @@
        Theorem 3 for graph states, both directions) and `decides_lc_equivalence_off_the_shortcut`: the answer is right
        on every run except a `no` on the pair-sum / random paths (D14; `decides_lc_equivalence_refuted`).
   No part of the "same LC orbit" claim is cited any more.
+    8. The repair of D14 (section 5; handoff/repairs/d14; helper lemmas in Proofs/LC{Comp,Block,Repair}.lean): the repaired
+       `is_lc_equivalent` (`isLcEquivalentR`) compares the connected components of the two graphs and runs the unchanged
+       algorithm (`isLcEquivalent`, now `_is_lc_equivalent_component`) on every induced pair.  Proved for every n:
+       `_connected_components` returns the reachability classes; components are an invariant of the LC orbit
+       (`components_are_lc_invariant`); a vector is a valid `Q` of the whole pair iff every restriction is a valid `Q` of the
+       induced pair (`block_diagonal_solution_iff`); every `yes` is right (`repaired_yes_means_same_orbit`); a `no` is right
+       when the partitions differ or off the shortcut in the failing component
+       (`decides_lc_equivalence_repaired_off_the_shortcut`, which now covers the witnesses of D14: `repaired_2K2_yes`); and
+       the decision statement holds in deterministic mode relative to exactly one hypothesis, the completeness of the pair-sum
+       shortcut on *connected* graphs (`decides_lc_equivalence_repaired_partial`,
+       `shortcut_complete_on_connected_statement` — a claim of the paper, tested exhaustively for connected n ≤ 6, not proved).
+  `isLcEquivalent` is the model of `is_lc_equivalent` while the repository is unrepaired and of `_is_lc_equivalent_component`
+  afterwards; sections 2–4 are about it in both readings.
 -/
 import GraphiqModel.Proofs.LC
 import GraphiqModel.Proofs.LCSeqTerm
+import GraphiqModel.Proofs.LCRepair
 namespace Graphiq.C09
 open Graphiq Graphiq.LC Graphiq.PRow Graphiq.Tab
 
@@ -443,5 +458,273 @@ theorem path_cycle_sequence : seqAnswer P4 Q4 = some [1, 2, 1] := by decide +ker
 set_option maxRecDepth 100000 in
 /-- and by the triangle and the 3-star (singles only) -/
 theorem triangle_star_sequence : seqAnswer K3 S3 = some [0, 1] := by decide +kernel
+
+/-! ## 5. The repaired `is_lc_equivalent` (repair of D14): the linear system is solved component by component
+
+  `isLcEquivalentR` is the model of the repaired `is_lc_equivalent`; `isLcEquivalent` (sections 3–4) is then the model of
+  `_is_lc_equivalent_component`, the unchanged old body that the repaired function calls on the induced pair of every
+  connected component.  Before the repair is applied to the repository `isLcEquivalent` is the model of `is_lc_equivalent`
+  itself; the harness probes the implementation and compares it with the matching model function. -/
+
+/-- **`_connected_components` returns the connected components**: every vertex lies in a listed set, different listed sets
+    are disjoint, and each listed set is the set of vertices reachable from one of its vertices (`Reach`: paths of edges
+    between vertices `< n`) -/
+theorem connected_components_are_the_reachability_classes (n : Nat) (A : Adj) (hA : Simple n A) :
+    (∀ v, v < n → ∃ c ∈ connectedComponents n A, v ∈ c) ∧
+    (connectedComponents n A).Pairwise (fun c1 c2 => ∀ v, v ∈ c1 → v ∉ c2) ∧
+    ∀ c ∈ connectedComponents n A, ∃ s, s < n ∧ ∀ x, x ∈ c ↔ x < n ∧ Reach n A s x := by
+  obtain ⟨h1, h2⟩ := connectedComponents_spec n A hA.1
+  refine ⟨h2, h1.disjoint, fun c hc => ?_⟩
+  obtain ⟨s, hs, e⟩ := h1.isClass c hc
+  exact ⟨s, hs, fun x => by rw [e]; exact mem_componentOf n A s hs x⟩
+
+/-- **local complementation never joins or splits connected components**: graphs in the same LC orbit have the same
+    components as vertex sets — literally the same list from `_connected_components` (every n) -/
+theorem components_are_lc_invariant (n : Nat) (A B : Adj) (hA : Simple n A) (h : SameOrbit n A B) :
+    connectedComponents n A = connectedComponents n B := by
+  obtain ⟨vs, hvs, hB⟩ := h
+  exact components_lc_invariant n A B hA vs hvs hB
+
+/-- non-vacuity: two disjoint edges have the components `{0, 1}`, `{2, 3}`; the path `0–1–2–3` and the graph two
+    complementations away (a concrete pair in one orbit, both connected) have the single component `{0, 1, 2, 3}` -/
+example : connectedComponents 4 twoK2.f = [[0, 1], [2, 3]] := by decide
+example : connectedComponents 4 (fun i j => decide (i + 1 = j ∨ j + 1 = i)) = [[0, 1, 2, 3]] ∧
+    connectedComponents 4 (applySeq (fun i j => decide (i + 1 = j ∨ j + 1 = i)) [1, 2]) = [[0, 1, 2, 3]] := by decide
+
+/-- **a local Clifford between two graphs with the same components is exactly one local Clifford per component**: `q`
+    satisfies every equation of the system for `(A, B)` with every block invertible iff, for every component `c`, the
+    restriction of `q` to `c` does so for the induced pair `(A[c], B[c])`.  ⇐ is the block-diagonal assembly the repaired
+    function performs, ⇒ is restriction (used for the `no` answers) -/
+theorem block_diagonal_solution_iff (n : Nat) (A B : Adj) (hA : Simple n A) (hB : Simple n B)
+    (hc : connectedComponents n A = connectedComponents n B) (q : Nat → Bool) :
+    ((∀ j k, j < n → k < n → equation n A B q j k = false) ∧ ∀ m, m < n → detQ q m = true) ↔
+      ∀ c ∈ connectedComponents n A,
+        (∀ i i', i < c.length → i' < c.length →
+          equation c.length (subAdj A c) (subAdj B c) (restrictQ q c) i i' = false) ∧
+        ∀ i, i < c.length → detQ (restrictQ q c) i = true := by
+  obtain ⟨hPa, hCa, _⟩ := connectedComponents_partition n A hA.1
+  obtain ⟨_, hCb, _⟩ := connectedComponents_partition n B hB.1
+  exact block_solution_iff n A B _ q hPa hCa (by rw [hc]; exact hCb)
+
+/-- **soundness of `yes` for the repaired function**, both modes, every search path in every component: the assembled `Q`
+    has `4 n` entries, satisfies every equation of the system for the whole pair, and every block is invertible -/
+theorem repaired_yes_returns_a_valid_clifford (a b : BMat) (mode : Mode) (draws : List (List Bool)) (out : EqOutR)
+    (q : List Bool) (hab : a.r = b.r) (ha : Simple a.r a.f) (hb : Simple b.r b.f)
+    (e : isLcEquivalentR a b mode draws = .ok out) (hq : out.sol = some q) :
+    q.length = 4 * a.r ∧ (∀ j k, j < a.r → k < a.r → equation a.r a.f b.f (vget q) j k = false) ∧
+    isValidClifford a.r q = true :=
+  isLcEquivalentR_yes a b mode draws out q ha (by rw [hab]; exact hb) e hq
+
+/-- hence **a `yes` of the repaired function means that the graphs are in the same LC orbit** (via the constructive
+    direction `valid_clifford_iff_same_orbit`: the sequence of `lc_graph_operations` for the assembled `Q`) -/
+theorem repaired_yes_means_same_orbit (a b : BMat) (mode : Mode) (draws : List (List Bool)) (out : EqOutR) (q : List Bool)
+    (hn : 0 < a.r) (hab : a.r = b.r) (ha : Simple a.r a.f) (hb : Simple b.r b.f)
+    (e : isLcEquivalentR a b mode draws = .ok out) (hq : out.sol = some q) : SameOrbit a.r a.f b.f := by
+  obtain ⟨_, h2, h3⟩ := repaired_yes_returns_a_valid_clifford a b mode draws out q hab ha hb e hq
+  exact (valid_clifford_iff_same_orbit a.r a.f b.f hn ha (by rw [hab]; exact hb)).mp ⟨q, h2, h3⟩
+
+/-- **LC-equivalent graphs are LC-equivalent component by component**: the induced subgraphs on every common component are
+    in the same LC orbit (restriction of the local Clifford, then the constructive direction on the component) -/
+theorem same_orbit_restricts_to_components (n : Nat) (A B : Adj) (hA : Simple n A) (hB : Simple n B)
+    (h : SameOrbit n A B) (c : List Nat) (hc : c ∈ connectedComponents n A) :
+    SameOrbit c.length (subAdj A c) (subAdj B c) := by
+  have hcomps := components_are_lc_invariant n A B hA h
+  obtain ⟨v, hv, hval⟩ := lc_equivalent_graphs_have_a_valid_clifford n A B hA h
+  obtain ⟨w, hw, hwv⟩ := restrict_valid n A B hA hB hcomps v hv hval c hc
+  obtain ⟨hpos, hlt, hsa, _⟩ := component_facts n A hA c hc
+  exact (valid_clifford_iff_same_orbit c.length _ _ hpos hsa (sub_simple n B hB c hlt)).mp ⟨w, hw, hwv⟩
+
+/-- **a `no` of the repaired function is right whenever it is taken because the component partitions differ, or on the
+    full-rank shortcut / after the exhaustive search (dimension ≤ 4) in the failing component** -/
+theorem repaired_no_means_not_lc_equivalent (a b : BMat) (mode : Mode) (draws : List (List Bool)) (out : EqOutR)
+    (hab : a.r = b.r) (ha : Simple a.r a.f) (hb : Simple b.r b.f)
+    (e : isLcEquivalentR a b mode draws = .ok out) (hsol : out.sol = none)
+    (hp : ∀ o ∈ out.parts, o.sol = none → o.path = "all-combinations" ∨ o.path = "full-rank") :
+    ¬ SameOrbit a.r a.f b.f := by
+  intro horb
+  have hb' : Simple a.r b.f := by rw [hab]; exact hb
+  rcases isLcEquivalentR_no a b mode draws out e hsol with hne | ⟨_, c, hc, o, d, hmem, ho, hnone⟩
+  · exact hne (components_are_lc_invariant a.r a.f b.f ha horb)
+  · obtain ⟨hpos, _, _, _⟩ := component_facts a.r a.f ha c hc
+    have hsub := same_orbit_restricts_to_components a.r a.f b.f ha hb' horb c hc
+    obtain ⟨w, hw, hwv⟩ := lc_equivalent_graphs_have_a_valid_clifford c.length _ _ (component_facts a.r a.f ha c hc).2.2.1 hsub
+    have : isValidClifford c.length w = false := (hp o hmem hnone).elim
+      (fun h1 => no_is_exhaustive_for_small_dimension (subMat a c) (subMat b c) mode d o hpos ho hnone h1 w hw)
+      (fun h2 => no_is_right_on_full_rank (subMat a c) (subMat b c) mode d o hpos ho h2 w hw)
+    rw [this] at hwv
+    exact absurd hwv (by decide)
+
+/-- **the decision property for the repaired function, proved wherever no appeal to the pair-sum shortcut is made**: on every
+    run that says `yes`, and on every run that says `no` because the partitions differ or with the failing component on the
+    full-rank / exhaustive path, the answer is `yes` exactly when one graph is reachable from the other by local
+    complementations.  This now covers `2K₂`, `K₂ + K₁`, and every graph all of whose components have a solution space of
+    dimension ≤ 4 (each isolated vertex: 3, each isolated edge: 4) — the inputs of the known finding D14 -/
+theorem decides_lc_equivalence_repaired_off_the_shortcut (a b : BMat) (mode : Mode) (draws : List (List Bool))
+    (out : EqOutR) (hn : 0 < a.r) (hab : a.r = b.r) (ha : Simple a.r a.f) (hb : Simple b.r b.f)
+    (e : isLcEquivalentR a b mode draws = .ok out)
+    (hp : ∀ o ∈ out.parts, o.sol = none → o.path = "all-combinations" ∨ o.path = "full-rank") :
+    out.sol.isSome = true ↔ SameOrbit a.r a.f b.f := by
+  constructor
+  · intro hs
+    cases hq : out.sol with
+    | none => rw [hq] at hs; cases hs
+    | some q => exact repaired_yes_means_same_orbit a b mode draws out q hn hab ha hb e hq
+  · intro horb
+    cases hq : out.sol with
+    | some q => rfl
+    | none => exact absurd horb (repaired_no_means_not_lc_equivalent a b mode draws out hab ha hb e hq hp)
+
+/-- a connected graph: every vertex is reachable from every vertex -/
+example : Connected 3 K3.f := by
+  intro i j hi hj
+  by_cases e : i = j
+  · rw [e]; exact Reach.refl _
+  · exact Reach.single hi hj (by simp only [K3, BMat.ofAdj]; exact decide_eq_true e)
+
+/-- **the remaining hypothesis, stated precisely** (Van den Nest–Dehaene–De Moor, Phys. Rev. A 70, 034302, Section IV: "if the
+    solution space has dimension > 4 it suffices to test the sums of two basis vectors"): for *connected* graphs, a `no` of the
+    pair-sum search of the unchanged algorithm is right.  Not proved here.  It is false without `Connected`
+    (`shortcut_incomplete_2K2`).  Evidence by testing only: no counterexample among all 4 304 188 ordered pairs of
+    connected labelled graphs on 6 vertices inside an LC orbit (and all on ≤ 5), nor among 120 000 random pairs on ≤ 12
+    vertices biased to large solution spaces (handoff/repairs/d14) -/
+def shortcut_complete_on_connected_statement : Prop :=
+  ∀ (a b : BMat) (draws : List Bool) (out : EqOut), 0 < a.r → a.r = b.r → Simple a.r a.f → Simple b.r b.f →
+    Connected a.r a.f → isLcEquivalent a b .det draws = .ok out → out.path = "pair-sums" → out.sol = none →
+    ¬ SameOrbit a.r a.f b.f
+
+/-- the decision property as worded, for the repaired function in deterministic mode -/
+def decides_lc_equivalence_repaired_statement : Prop :=
+  ∀ (a b : BMat) (draws : List (List Bool)) (out : EqOutR), 0 < a.r → a.r = b.r → Simple a.r a.f → Simple b.r b.f →
+    isLcEquivalentR a b .det draws = .ok out → (out.sol.isSome = true ↔ SameOrbit a.r a.f b.f)
+
+/-- **the repaired `is_lc_equivalent` decides LC equivalence, relative to the completeness of the pair-sum shortcut on
+    connected graphs**.  Proved: `yes` ⇒ same orbit; `no` ⇒ different orbits when the partitions differ (components are an
+    orbit invariant), when the failing component is on the full-rank / exhaustive path (restriction of a valid `Q` +
+    exhaustiveness), and — the only use of the hypothesis — when the failing component is on the pair-sum path: the induced
+    graph of a component is simple and *connected* (`sub_connected`), and an LC-equivalent pair restricts to LC-equivalent
+    induced pairs (`same_orbit_restricts_to_components`).  Missing for the unconditional statement: exactly
+    `shortcut_complete_on_connected_statement`.  (`mode = "random"` cannot be complete: 1000 random trials may all miss.) -/
+theorem decides_lc_equivalence_repaired_partial (hshort : shortcut_complete_on_connected_statement) :
+    decides_lc_equivalence_repaired_statement := by
+  intro a b draws out hn hab ha hb e
+  have hb' : Simple a.r b.f := by rw [hab]; exact hb
+  constructor
+  · intro hs
+    cases hq : out.sol with
+    | none => rw [hq] at hs; cases hs
+    | some q => exact repaired_yes_means_same_orbit a b .det draws out q hn hab ha hb e hq
+  · intro horb
+    cases hq : out.sol with
+    | some q => rfl
+    | none =>
+      exfalso
+      rcases isLcEquivalentR_no a b .det draws out e hq with hne | ⟨_, c, hc, o, d, _, ho, hnone⟩
+      · exact hne (components_are_lc_invariant a.r a.f b.f ha horb)
+      · obtain ⟨hpos, hlt, hsa, hconn⟩ := component_facts a.r a.f ha c hc
+        have hsb : Simple c.length (subAdj b.f c) := sub_simple a.r b.f hb' c hlt
+        have hsub := same_orbit_restricts_to_components a.r a.f b.f ha hb' horb c hc
+        obtain ⟨w, hw, hwv⟩ := lc_equivalent_graphs_have_a_valid_clifford c.length _ _ hsa hsub
+        rcases isLcEquivalent_paths (subMat a c) (subMat b c) .det d o ho with h1 | h1 | h1 | h1
+        · have : isValidClifford c.length w = false :=
+            no_is_right_on_full_rank (subMat a c) (subMat b c) .det d o hpos ho h1 w hw
+          rw [this] at hwv; exact absurd hwv (by decide)
+        · have : isValidClifford c.length w = false :=
+            no_is_exhaustive_for_small_dimension (subMat a c) (subMat b c) .det d o hpos ho hnone h1 w hw
+          rw [this] at hwv; exact absurd hwv (by decide)
+        · exact absurd h1.2 (by decide)
+        · exact hshort (subMat a c) (subMat b c) d o hpos rfl hsa hsb hconn ho h1.1 hnone hsub
+
+/-- what the model of the repaired function answers in deterministic mode, as data -/
+def answerR (a b : BMat) : Option (Option (List Bool)) :=
+  match isLcEquivalentR a b .det [] with
+  | .ok o => some o.sol
+  | .error _ => none
+
+set_option maxRecDepth 100000 in
+/-- **the witnesses of D14 are answered `yes` by the repaired function** (kernel-checked; a Hadamard on every vertex, as the
+    patched implementation returns): two disjoint edges compared with themselves … -/
+theorem repaired_2K2_yes :
+    answerR twoK2 twoK2 = some (some [false, true, true, false, false, true, true, false, false, true, true, false,
+      false, true, true, false]) := by decide +kernel
+
+set_option maxRecDepth 100000 in
+/-- … and an edge plus an isolated vertex (the isolated vertex gets the first valid block of its 3-dimensional space, `P H P`) -/
+theorem repaired_K2K1_yes : answerR K2K1 K2K1 = some (some [false, true, true, false, false, true, true, false, true, false, false, true]) := by
+  decide +kernel
+
+/-- `K₄` plus an isolated vertex: the component `K₄` has a solution space of dimension 5, so this run goes through the
+    pair-sum shortcut on a connected component -/
+def K4K1 : BMat := BMat.ofAdj 5 (fun i j => decide (i ≠ j) && decide (i < 4) && decide (j < 4))
+
+/-- the search paths of the components examined by the model of the repaired function, and its answer -/
+def pathsR (a b : BMat) : Option (List String × Option (List Bool)) :=
+  match isLcEquivalentR a b .det [] with
+  | .ok o => some (o.parts.map (fun p => p.path), o.sol)
+  | .error _ => none
+
+set_option maxRecDepth 100000 in
+/-- non-vacuity of the pair-sum case of `decides_lc_equivalence_repaired_partial` (kernel-checked): a `yes` found by the
+    shortcut on the connected component `K₄` -/
+theorem repaired_K4K1_paths : pathsR K4K1 K4K1 = some (["pair-sums", "all-combinations"],
+    some [false, true, true, false, true, false, false, true, false, true, true, false, true, false, false, true, true, false, false, true]) := by
+  decide +kernel
+
+/-- **`find_lc_operations` over the repaired function**: whatever it returns is a list of vertices whose local
+    complementations take the first graph to the second; and it does return whenever the repaired `is_lc_equivalent`
+    says yes -/
+theorem find_lc_operations_correct_repaired (fuel : Nat) (a b : BMat) (mode : Mode) (draws : List (List Bool))
+    (hn : 0 < a.r) (hab : a.r = b.r) (ha : Simple a.r a.f) (hb : Simple b.r b.f) :
+    (∀ seq, findLcOperationsR fuel a b mode draws = .ok seq →
+      (∀ v ∈ seq, v < a.r) ∧ EqAdj a.r (applySeq a.f seq) b.f) ∧
+    (∀ out, isLcEquivalentR a b mode draws = .ok out → out.sol.isSome = true → a.r + 1 ≤ fuel →
+      ∃ seq, findLcOperationsR fuel a b mode draws = .ok seq) := by
+  have hb' : Simple a.r b.f := by rw [hab]; exact hb
+  constructor
+  · intro seq e
+    unfold findLcOperationsR at e
+    cases h : isLcEquivalentR a b mode draws with
+    | error x => rw [h] at e; cases e
+    | ok out =>
+      rw [h] at e
+      dsimp only at e
+      cases hs : out.sol with
+      | none => rw [hs] at e; cases e
+      | some q =>
+        rw [hs] at e
+        obtain ⟨_, h2, h3⟩ := repaired_yes_returns_a_valid_clifford a b mode draws out q hab ha hb h hs
+        have := lc_graph_operations_reaches_the_target fuel a.r a.f b.f q seq ha hb' h2 h3 e
+        exact ⟨this.2, this.1⟩
+  · intro out h hs hf
+    cases hq : out.sol with
+    | none => rw [hq] at hs; cases hs
+    | some q =>
+      obtain ⟨_, h2, h3⟩ := repaired_yes_returns_a_valid_clifford a b mode draws out q hab ha hb h hq
+      obtain ⟨seq, e⟩ := lc_graph_operations_terminates fuel a.r a.f b.f q hn ha hb' h2 h3 hf
+      refine ⟨seq, ?_⟩
+      unfold findLcOperationsR
+      rw [h]
+      dsimp only
+      rw [hq]
+      exact e
+
+/-- **the gates returned by `lc_check(A, B, validate=True)` over the repaired function transform the first graph state
+    exactly into the second** (same statement and proof as `lc_check_gates_map_the_state`) -/
+theorem lc_check_gates_map_the_state_repaired (a b : BMat) (gates : List (String × Nat)) (hA : Simple a.r a.f)
+    (e : lcCheckR a b true = .ok (true, gates)) :
+    ∃ t, runGates (graphTab a.r a.f) gates = .ok t ∧ t.n = a.r ∧ t.Valid ∧
+      ∀ q, q < a.r → InSpan t.n t.n t.stab (graphGen b.f q) :=
+  lcCheckR_sound a b gates hA e
+
+/-- what the model's `lc_check(validate=True)` over the repaired function answers, as data -/
+def checkAnswerR (a b : BMat) : Option (Bool × List (String × Nat)) :=
+  match lcCheckR a b true with
+  | .ok r => some r
+  | .error _ => none
+
+set_option maxRecDepth 100000 in
+/-- non-vacuity (kernel-checked): for two disjoint edges compared with themselves the checked path succeeds with a Hadamard
+    on every qubit … which maps `|2K₂⟩` to itself (`H ⊗ H` fixes the two-qubit graph state) -/
+theorem lc_check_2K2_repaired : checkAnswerR twoK2 twoK2 = some (true, [("H", 0), ("H", 1), ("H", 2), ("H", 3)]) := by
+  decide +kernel
 
 end Graphiq.C09
